@@ -788,7 +788,9 @@ void var_opt_sketch<T, A>::update(O&& item, double weight, bool mark) {
   } else {
     // sketch is in estimation mode so we can make the following check,
     // although very conservative to check every time
-    if ((h_ != 0) && (peek_min() < get_tau()))
+    // tau is total_wt_r_ / r_ rounded; an H item that equals tau mathematically may be one ulp below the
+    // rounded quotient, so compare with a relative slack instead of exactly
+    if ((h_ != 0) && (peek_min() < get_tau() * (1.0 - 1e-12)))
       throw std::logic_error("sketch not in valid estimation mode");
 
     // what tau would be if deletion candidates turn out to be R plus the new item
